@@ -60,4 +60,86 @@ pub fn core_side_metadata_specs() -> Vec<SideMetadataSpec> {
         COMPRESSOR_MARK,
         COMPRESSOR_OFFSET_VECTOR,
     ]
+
+/// Side-metadata hooks for the `side` component (C20–C22).
+pub mod side {
+    use crate::util::metadata::side_metadata::ranges::{break_bit_range, BitByteRange};
+    use crate::util::metadata::side_metadata::{self, SideMetadataContext, SideMetadataSpec};
+    use crate::util::Address;
+    use crate::MMAPPER;
+
+    /// Map the metadata of `spec` for the data range through the real
+    /// `SideMetadataContext::try_map_metadata_space` (→ `try_mmap_contiguous_metadata_space`).
+    pub fn map_metadata(spec: SideMetadataSpec, start: Address, size: usize) -> bool {
+        let ctx = SideMetadataContext {
+            global: vec![spec],
+            local: vec![],
+        };
+        ctx.try_map_metadata_space(start, size, "verif").is_ok()
+    }
+
+    /// `side_metadata_reserved_bytes()`.
+    pub fn reserved_bytes() -> usize {
+        side_metadata::side_metadata_reserved_bytes()
+    }
+
+    /// `global_side_metadata_base_address()`.
+    pub fn base_address() -> Address {
+        side_metadata::global_side_metadata_base_address()
+    }
+
+    /// Record data chunks as mapped in the real `MMAPPER` (bookkeeping only).
+    pub fn mark_data_mapped(start: Address, bytes: usize) {
+        MMAPPER.mark_as_mapped(start, bytes)
+    }
+
+    /// Record data chunks as unmapped in the real `MMAPPER` (bookkeeping only).
+    pub fn mark_data_unmapped(start: Address, bytes: usize) {
+        MMAPPER.verif_set_unmapped(start, bytes)
+    }
+
+    /// `Address::is_mapped` (the `MMAPPER`'s view).
+    pub fn is_mapped(addr: Address) -> bool {
+        addr.is_mapped()
+    }
+
+    /// `MMAPPER.granularity()`.
+    pub fn mmap_granularity() -> usize {
+        MMAPPER.granularity()
+    }
+
+    /// `address_to_meta_address` and `meta_byte_lshift`.
+    pub fn meta_address(spec: &SideMetadataSpec, data_addr: Address) -> (Address, u8) {
+        (
+            side_metadata::address_to_meta_address(spec, data_addr),
+            side_metadata::verif_hooks::meta_byte_lshift(spec, data_addr),
+        )
+    }
+
+    /// `break_bit_range`, collecting the visited ranges as `(is_bytes, a, b, c)`:
+    /// `Bytes{start: a, end: b}` or `BitsInByte{addr: a, bit_start: b, bit_end: c}`.
+    /// `stop_after` = number of ranges after which the visitor returns `true` (0 = never).
+    pub fn break_range(
+        start_addr: Address,
+        start_bit: u8,
+        end_addr: Address,
+        end_bit: u8,
+        forwards: bool,
+        stop_after: usize,
+    ) -> (bool, Vec<(bool, usize, usize, usize)>) {
+        let mut v = vec![];
+        let r = break_bit_range(start_addr, start_bit, end_addr, end_bit, forwards, &mut |range| {
+            match range {
+                BitByteRange::Bytes { start, end } => v.push((true, start.as_usize(), end.as_usize(), 0)),
+                BitByteRange::BitsInByte {
+                    addr,
+                    bit_start,
+                    bit_end,
+                } => v.push((false, addr.as_usize(), bit_start as usize, bit_end as usize)),
+            }
+            stop_after != 0 && v.len() >= stop_after
+        });
+        (r, v)
+    }
+
 }
